@@ -7,7 +7,6 @@ status, ValueError) must be equal.  Independently (a) a brute-force Python oracl
 checkers knap_check_q / bin_check (proved sound in Coq) judge the IMPLEMENTATION's outputs.
 """
 import json
-import os
 from fractions import Fraction
 
 from harness.core import VERIF, Ctx, cbool, clist, cnat, copt, cq, cz, guarded, pmap
@@ -39,6 +38,7 @@ def is_intlike(x):
 
 
 # ---------------------------------------------------------------- knapsack generators
+EPS = Fraction(1, 10**9)
 DEC_W = [0.1, 0.2, 0.25, 0.3, 0.4, 0.5, 0.6, 0.7, 0.75, 0.9, 1.1, 1.5, 1.25, 0.05, 0.15, 2.5]
 
 
@@ -400,8 +400,8 @@ def oracle_bin(c, out, stats=None):
         return ("numbering", f"bins used {sorted(set(asg))} but objective {k}")
     for b in range(k):
         ld = sum(sizes[i] for i in range(n) if asg[i] == b)
-        if ld > cap:
-            return ("capacity", f"bin {b} holds {ld} > {cap}")
+        if ld > cap + EPS:        # the code's fit test has the absolute tolerance _EPS = 1e-9
+            return ("capacity", f"bin {b} holds {ld} > {cap} (+1e-9)")
     if k * cap < sum(sizes):
         return ("lower-bound", f"{k} bins cannot hold total {sum(sizes)}")
     if status not in ("OPTIMAL", "FEASIBLE"):
@@ -485,9 +485,9 @@ KNAP_Q_SPEC = "fun c => let '(v, w, cp, m) := fst c in knap_check_q v w cp (snd 
 KNAP_Z_T = "(list Z * list Z * Z * bool) * zobs"
 KNAP_Z_CHK = "fun c => let '(v, w, cp, m) := fst c in zobs_eqb (zobs_of (knap_z v w cp m)) (snd c)"
 BIN_T = "(list Q * Q * bool * bool) * bobs"
-BIN_CHK = "fun c => let '(s, cp, bf, dec) := fst c in bobs_eqb (bobs_of (bin_pack s cp bf dec)) (snd c)"
+BIN_CHK = "fun c => let '(s, cp, bf, dec) := fst c in bobs_eqb (bobs_of (bin_pack tol s cp bf dec)) (snd c)"
 BIN_SPEC_T = "(list Q * Q) * bobs"
-BIN_SPEC = "fun c => let '(s, cp) := fst c in bin_check s cp (snd c)"
+BIN_SPEC = "fun c => let '(s, cp) := fst c in bin_check 0 s cp (snd c)"
 
 
 # ---------------------------------------------------------------- float idealisation guards
@@ -701,13 +701,6 @@ def run(ctx: Ctx):
             ctx.count("bin_n", len(c["sizes"]))
             ctx.count("bin_algo", c["algorithm"])
             bad = oracle_bin(c, out, ratio_stats)
-            if bad and bad[0] == "11/9" and _float_remaining_class(c, out, twins, cases, outs):
-                ctx.count("bin_float_11_9_miss", 1)
-                fid = "C16-binpack-float-remaining"
-                if any(f.get("id") == fid for f in ctx.open_findings()) or os.environ.get("C16_DEV_ASSUME_KNOWN"):
-                    ctx.known_hit(fid, f"solve_bin_pack({c['sizes']}, {c['capacity']}, algorithm={c['algorithm']!r}): {bad[1]} "
-                                       "(float `remaining - size` rejects an item that fits exactly; the integer-scaled instance is packed within the bound)")
-                    bad = None
             if bad:
                 small = shrink_bin(c, bad[0]) if out[0] in ("ok", "exc") else c
                 o2 = run_bin_impl(small)
@@ -729,6 +722,10 @@ def run(ctx: Ctx):
                 t = twins.get(_key(c))
                 same = t is not None and outs[t] == out
                 ctx.count("bin_float_guard", "compared(float run = exact integer run)" if same else "float_sensitive")
+                if t is not None and out[0] == "ok" and outs[t][0] == "ok" and outs[t][1][1] != out[1][1] and not bad:
+                    ctx.violation(f"solve_bin_pack: the float run uses {out[1][1]} bins, the same instance scaled to integers {outs[t][1][1]} "
+                                  "(float round-off in `remaining - size` decides a fit test)",
+                                  {"kind": "bin", "case": c, "impl": repr(out), "impl_scaled": repr(outs[t]), "clause": "float-vs-exact"})
                 if not same:
                     continue
             if obs is None:
@@ -760,20 +757,6 @@ def run(ctx: Ctx):
     disagree = [("knap_q", kq_meta[i]) for i in f_kq] + [("knap_z", kz_meta[i]) for i in f_kz] + [("bin", b_meta[i]) for i in f_b]
     if (disagree or ctx.broken) and not ctx.violations:
         _search(ctx, disagree)
-
-
-def _float_remaining_class(c, out, twins, cases, outs):
-    """The input class of finding C16-binpack-float-remaining: non-dyadic decimal sizes/capacity, the float run differs
-    from the run of the same code on the integer-scaled instance, and that exact run satisfies the whole oracle."""
-    if all(is_dyadic(s) for s in c["sizes"]) and is_dyadic(c["capacity"]):
-        return False
-    t = twins.get(_key(c))
-    if t is None:
-        tc = scaled_bin_case(c)
-        tout = run_bin_impl(tc)
-    else:
-        tc, tout = cases[t], outs[t]
-    return tout != out and oracle_bin(tc, tout) is None
 
 
 def _other_bin_error(c):
@@ -815,8 +798,6 @@ def _search(ctx, disagree):
     ctx.evaluations += len(pool)
     for c, out in zip(pool, outs):
         bad = oracle_knap(c, out) if c["kind"] == "knap" else oracle_bin(c, out)
-        if bad and bad[0] == "11/9" and _float_remaining_class(c, out, {}, [], []):
-            continue        # the input class of finding C16-binpack-float-remaining: judged in the main pass
         if bad and bad[0] != "optimal-decimal":
             small = (shrink_knap if c["kind"] == "knap" else shrink_bin)(c, bad[0])
             o2 = _run_case(small)
@@ -830,7 +811,7 @@ def _search(ctx, disagree):
         elif tag == "knap_z":
             term = f"let '(v, w, cp, m) := {knap_in_z(c)} in zobs_of (knap_z v w cp m)"
         else:
-            term = f"let '(s, cp, bf, dec) := {bin_in(c)} in bobs_of (bin_pack s cp bf dec)"
+            term = f"let '(s, cp, bf, dec) := {bin_in(c)} in bobs_of (bin_pack tol s cp bf dec)"
         model = ctx.coq_eval(f"{tag}_show", IMPORTS, term)
         ctx.violation(f"correspondence lemma {tag}: the Coq model SV.C16 and the implementation differ (observable: solution, objective, status)",
                       {"kind": c["kind"], "case": c, "impl": repr(out), "model": model[-600:], "lemma": f"Cases/C16/{tag}_*.v corr"}, no_input=True)
